@@ -2378,6 +2378,13 @@ def r_trimidx(P, chk):
                     if S == L:
                         continue
                     n_pair += 1
+                    deleg = [c_ for c_ in walk(w["c"][0]) if c_["k"] == "CallExpr" and c_.get("callee") and P.resolve(f, c_["callee"]) is not None
+                             and P.first_party(P.resolve(f, c_["callee"])) and {S, L} <= {key(a_) for a_ in c_["c"][1:]}]
+                    if deleg:
+                        # the two-ended test sits in a predicate helper that receives both the start and the length: not followed
+                        chk.obligation(rid, "%s %s: `%s++; %s -= 2` under predicate helper %s(%s, %s) (delegated, not followed)" % (
+                            f.where(w), f.name, S, L, deleg[0]["callee"], S, L), True)
+                        continue
                     first = {S: 1} in forms
                     last = {S: 1, L: 1, 1: -1} in forms
                     chk.obligation(rid, "%s %s: `%s++; %s -= 2` under tests of [%s] and [%s + %s - 1]" % (f.where(w), f.name, S, L, S, S, L), first and last)
